@@ -28,6 +28,7 @@ type Scenario struct {
 	Genesis  json.RawMessage `json:"genesis"`
 	Blocks   []BlockOp       `json:"blocks"`
 	Params   map[string]int64 `json:"params,omitempty"`
+	PreUsed  []PreCheck       `json:"pre_used_checks,omitempty"` // checks the genesis lists as used (their hashes are in Genesis)
 	Expect   string          `json:"expect,omitempty"` // violation signature expected on replay
 }
 
@@ -192,6 +193,10 @@ func NewWorld(sc *Scenario, mons ...Monitor) (*World, *CallErr) {
 		return w, nil
 	}
 	w.GenesisState = st
+	for _, pc := range sc.PreUsed {
+		ic, _ := pc.Build(w.Chain)
+		w.Issued = append(w.Issued, ic)
+	}
 	w.Disk = simdb.NewDisk()
 	n, cerr := OpenNode(w.Disk, sc.Node)
 	if cerr != nil {
